@@ -326,6 +326,25 @@ pub fn generate(r: &mut Rng, contradictory: bool) -> Generated {
             emitted[c].push(e.clone());
             judgements.push((holder, e));
         }
+        // A `bytes`/`string` slot is also seen as the packed header of its
+        // first word - flag bit, short length, data: spans (0,1), (1,7),
+        // (8,248), any non-empty subset of them, listed in any order - which
+        // the library documents as compatible with dynamic bytes.
+        if !contradictory && matches!(truths[c], Truth::DynBytes) && emitted[c].iter().any(|e| matches!(e, Ev::Bytes)) && r.chance(1, 2) {
+            let mut spans: Vec<(usize, usize, usize)> = Vec::new();
+            for (o, w) in [(0usize, 1usize), (1, 7), (8, 248)] {
+                if r.chance(2, 3) {
+                    let v = class_of.len();
+                    class_of.push(usize::MAX);
+                    spans.push((v, o, w));
+                }
+            }
+            if !spans.is_empty() {
+                r.shuffle(&mut spans);
+                let holder = *r.pick(&vars_of[c]);
+                judgements.push((holder, Ev::Packed { spans, is_struct: false }));
+            }
+        }
     }
     let mut target = None;
     let mut injected = None;
